@@ -134,6 +134,6 @@ theorem foreign_parse (d : FDataset) (hwf : FWFds d) : parseDds (ftextDs d) = .o
   have s4 := fclosing d.gs hwf.hgs 2 d.name [] hwf.hname
   have hins := insertAll_nodup (declL d.kids) hwf.hnodup
   rw [e0]
-  simp only [parseDds, s1, s2, s3, s4, hins, declDs]
+  simp only [parseDds, parseDdsWith, s1, s2, s3, s4, hins, declDs]
 
 end Pydap.Dds
